@@ -1,10 +1,13 @@
 package main
 
 import (
+	"fmt"
+	"os"
 	"go/constant"
 	"go/token"
 	"go/types"
 	"strings"
+	"sync"
 
 	"golang.org/x/tools/go/ssa"
 )
@@ -38,6 +41,7 @@ type Analyzer struct {
 func NewAnalyzer(p *Prog) *Analyzer {
 	a := &Analyzer{P: p, singletons: map[string]bool{}, inlinable: map[*ssa.Function]int{}, loops: map[*ssa.Function]*LoopInfo{},
 		implCache: map[string][]*ssa.Function{}, summaries: map[string]*summary{}}
+	dynResolver = a.resolveDyn
 	for _, s := range []string{
 		"termincommittee.TermInCommittee", "leanhelix.WorkerLoop", "leanhelix.MainLoop", "rawmessagesfilter.RawMessageFilter",
 		"state.State", "state.ViewContexts", "Electiontrigger.TimerBasedElectionTrigger", "messagesfactory.MessageFactory",
@@ -115,6 +119,55 @@ func methodShort(m *types.Func) string {
 func isSpecTypesPkg(path string) bool {
 	return strings.HasPrefix(path, modPath+"/spec/types/")
 }
+
+// resolveDyn: see dynResolver. Context-free: only functions whose value can be stated over their arguments (value
+// summaries, intrinsics, bound-method wrappers around those) are resolved; anything else stays a dynamic call.
+func (a *Analyzer) resolveDyn(na []*Term) *Term {
+	fv, args := na[0], na[1:]
+	mk := ""
+	for _, x := range na {
+		mk += x.Key() + "|"
+	}
+	if v, ok := dynMemo.Load(mk); ok {
+		if v == nil {
+			return nil
+		}
+		return v.(*Term)
+	}
+	t := a.resolveDyn1(fv, args)
+	if t == nil {
+		dynMemo.Store(mk, nil)
+	} else {
+		dynMemo.Store(mk, t)
+	}
+	return t
+}
+
+var dynMemo sync.Map
+
+func (a *Analyzer) resolveDyn1(fv *Term, args []*Term) *Term {
+	f := a.P.FuncByID[fv.Name]
+	if f == nil {
+		if sf, ok := syntheticFns.Load(fv.Name); ok {
+			f = sf.(*ssa.Function)
+		}
+	}
+	if f == nil {
+		return nil
+	}
+	c := a.NewFCtx(f, nil, 1)
+	t := c.staticCall(f, args, fv.Args)
+	if os.Getenv("LH_DEBUG_DYN") != "" {
+		fmt.Fprintf(os.Stderr, "resolveDyn %s (%d bindings) -> %s\n", fv.Name, len(fv.Args), PP(t))
+	}
+	if t == nil || t.Contains(func(x *Term) bool { return x.Op == "phi" || x.Op == "unk" }) {
+		return nil
+	}
+	return t
+}
+
+// syntheticFns: compiler-made wrappers (bound methods `x.M` used as values) met while building closure terms.
+var syntheticFns sync.Map
 
 var keepNamed = map[string]bool{
 	"quorum.IsQuorum": true, "quorum.HasHonest": true, "quorum.CalcQuorumWeight": true, "quorum.CalcByzMaxWeight": true,
@@ -1020,6 +1073,9 @@ func (c *FCtx) term(v ssa.Value) *Term {
 		for i, b := range x.Bindings {
 			args[i] = c.Term(b)
 		}
+		if fn.Synthetic != "" {
+			syntheticFns.Store(funcID(fn), fn) // bound-method wrappers are not in the library function table
+		}
 		return T("closure", funcID(fn), args...)
 	case *ssa.Slice:
 		if x.High != nil && isConstInt(x.High, 0) {
@@ -1713,7 +1769,7 @@ func (c *FCtx) callTerm(at ssa.Value, cc *ssa.CallCommon) *Term {
 			return t
 		}
 		// resolve through identical inlinable implementations
-		if c.depth < 12 {
+		if c.depth < 32 {
 			impls := c.A.impls(cc.Value.Type(), cc.Method)
 			if len(impls) > 0 {
 				var first *Term
@@ -1761,6 +1817,13 @@ func (c *FCtx) callTerm(at ssa.Value, cc *ssa.CallCommon) *Term {
 		if f := c.A.P.FuncByID[fv.Name]; f != nil {
 			return c.staticCall(f, args, fv.Args)
 		}
+		if sf, ok := syntheticFns.Load(fv.Name); ok {
+			t := c.staticCall(sf.(*ssa.Function), args, fv.Args)
+			if os.Getenv("LH_DEBUG_DYN") != "" {
+				fmt.Fprintf(os.Stderr, "inctx %s in %s depth %d -> %s\n", PP(fv), c.Fn.Name(), c.depth, PP(t))
+			}
+			return t
+		}
 	}
 	if fv.Op == "func" {
 		if f := c.A.P.FuncByID[fv.Name]; f != nil {
@@ -1776,10 +1839,10 @@ func (c *FCtx) staticCall(f *ssa.Function, args []*Term, bindings []*Term) *Term
 		return t
 	}
 	// bound-method and thunk wrappers are transparent
-	if c.depth < 12 && c.A.isInlinable(f) {
+	if c.depth < 32 && c.A.isInlinable(f) {
 		return c.inline(f, args, bindings)
 	}
-	if f.Synthetic != "" && f.Blocks != nil && len(f.Blocks) == 1 && c.depth < 12 {
+	if f.Synthetic != "" && f.Blocks != nil && len(f.Blocks) == 1 && c.depth < 32 {
 		// wrapper around a non-inlinable method: name it after the wrapped call
 		if ret, ok := f.Blocks[0].Instrs[len(f.Blocks[0].Instrs)-1].(*ssa.Return); ok {
 			sub := c.A.NewFCtx(f, bindEnv(c.A, f, args, bindings), c.depth+1)
